@@ -206,11 +206,17 @@ def bounded(ctx):
                                      what="complete scenario with plasmid %d rotated by %d and spelled %s ends with %r; the upper-case inputs give a product" % (
                                          which, r_, mode, got[0][:2]), case=dict(plasmid=which, rotation=r_, spelling=mode),
                                      expected=list(ref[0][:1]), observed=list(got[0][:2])))
+    # the shared scenarios: this property's oracle over the cross product of the unusual input dimensions
+    from bounded import scenarios as sn
+    n_sw, d_sw, v_sw = sn.sweep(ctx, ns, 'case')
+    evals += n_sw
+    distinct |= {("shared",) + tuple(map(str, k_)) for k_ in d_sw}
+    viol.extend(v_sw)
     uniq = {}
     for v in viol:
         uniq.setdefault(v["name"], v)
     return dict(evaluations=evals, distinct_nontrivial=len(distinct),
-                rule="(1) every concrete kit class on seeded instances of its structure (and variants with a further site) spelled lower / "
+                rule="" + sn.SWEEP_RULE + "; (1) every concrete kit class on seeded instances of its structure (and variants with a further site) spelled lower / "
                      "per-letter random / regionally (one recognition-site occurrence lower and the rest upper, and the converse), compared with "
                      "the upper-case spelling (verdict, overhangs, target, placeholder up to case); (2) a BsaI vector + 2 modules in 4 "
                      "scenarios (complete, invalid vector, missing module, duplicate) under per-record assignments of {upper, lower, "
